@@ -211,7 +211,9 @@ package redis
 //@   ensures @line-ends-at-first-delimiter result1 == nil ==> result0[len(result0)-1] == delim && forall k int :: 0 <= k && k < len(result0) - 1 ==> result0[k] != delim
 //@   ensures @full-or-error result1 != nil ==> (len(result0) == 0 || result0 == b.buf)
 //@   ensures @error-kind result1 != nil ==> (result1 == bufio.ErrBufferFull && result0 == b.buf) || (b.err != nil && result1 == b.err && isnil(result0))
-//@   ensures @full-buffer-is-next-stream-bytes result1 == bufio.ErrBufferFull ==> b.err == nil && rpos(b) == old(rpos(b)) + len(b.buf) && forall k int :: 0 <= k && k < len(b.buf) ==> b.buf[k] == stream[src(b)][old(rpos(b)) + k] && b.buf[k] != delim
+//@   ensures @full-buffer-consumed result1 == bufio.ErrBufferFull ==> b.err == nil && rpos(b) == old(rpos(b)) + len(b.buf)
+//@   ensures @full-buffer-is-next-stream-bytes result1 == bufio.ErrBufferFull ==> forall k int :: 0 <= k && k < len(b.buf) ==> b.buf[k] == stream[src(b)][old(rpos(b)) + k]
+//@   ensures @full-buffer-has-no-delimiter result1 == bufio.ErrBufferFull ==> forall k int :: 0 <= k && k < len(b.buf) ==> b.buf[k] != delim
 //@   loop 0 invariant readerRI(b) && b.buf == old(b.buf) && b.rd == old(b.rd) && b.err == nil && windowok(b) && rpos(b) == old(rpos(b))
 
 //@ func (*Reader).ReadBytes
